@@ -131,6 +131,7 @@ typedef struct _TblsBufr
 
 extern EntryTableB   *bufr_fetch_tableB           ( BUFR_Tables *, int desc );
 extern EntryTableD   *bufr_fetch_tableD           ( BUFR_Tables *, int desc );
+extern int            bufr_tabled_is_circular     ( BUFR_Tables *, int desc );
 extern EntryTableD   *bufr_match_tableD_sequence  ( BUFR_Tables *, int ndesc, int desc[] );
 
 extern int            bufr_load_csv_tableB        ( BUFR_Tables *tables, const char *filename );
